@@ -396,11 +396,30 @@ def history_case(case_seed, res, prop="C09"):
     d = tempfile.mkdtemp(prefix="verif-c09h-")
     try:
         for _step in range(rng.randrange(4, 11)):
-            kind = rng.choice(["verify"] * 5 + ["impostor"] * 2 + ["sign", "sign", "append", "edit", "reload"])
+            kind = rng.choice(["verify"] * 5 + ["impostor"] * 2 + ["sign", "sign", "append", "append", "edit", "reload", "corrupt"])
             k = rng.choice(keys)
-            if kind == "append" and any(p[0] == k.keyid for p in present):
-                kind = "sign"         # key ids within one file stay distinct (DESIGN 4.3)
+            if kind == "append" and prop == "C09" and present and rng.random() < 0.5:
+                # a second signature by a key that has signed already (in-toto-sign --append does this)
+                dup_id = rng.choice(present)[0]
+                k = next(x for x in keys if x.keyid == dup_id)
+            if kind == "append" and any(p[0] == k.keyid for p in present) and prop != "C09":
+                kind = "sign"         # for the comparison of the formats key ids within one file stay distinct (DESIGN 4.3)
+            if kind == "corrupt" and not any(p[2] != -1 for p in present):
+                kind = "verify"       # nothing (left) to corrupt; a second change could restore the original value
             op = {"op": kind, "key": k.keyid[:8]}
+            if kind == "corrupt":
+                # one hex digit of one signature value is changed, in both twins
+                j = rng.choice([x for x, p in enumerate(present) if p[2] != -1])
+                for fmt, md in mds.items():
+                    sg = md.signatures[j]
+                    if isinstance(sg, dict):
+                        v = sg["sig"]; sg["sig"] = v[:-1] + ("0" if v[-1] != "0" else "1")
+                    else:
+                        v = sg.signature; sg.signature = v[:-1] + ("0" if v[-1] != "0" else "1")
+                present[j] = (present[j][0], present[j][1], -1)
+                op = {"op": "corrupt", "index": j}
+                ops.append(op)
+                continue
             if kind in ("sign", "append"):
                 for fmt, md in mds.items():
                     if kind == "sign":
@@ -433,7 +452,11 @@ def history_case(case_seed, res, prop="C09"):
                     other = rng.choice([x for x in keys if x is not k])
                     pub["keyid"] = other.keyid          # k's material under other's id
                     op["claims_id_of"] = other.keyid[:8]
-                truth = any(p == (pub["keyid"], W.key_material(pub), version) for p in present)
+                want = (pub["keyid"], W.key_material(pub), version)
+                same_id = [p for p in present if p[0] == pub["keyid"]]
+                # a traditional file is checked against the FIRST signature carrying the key's id, an envelope
+                # against any (they coincide while ids are distinct)
+                truth_by_fmt = {"metablock": bool(same_id) and same_id[0] == want, "dsse": want in present}
                 outs = {}
                 for fmt, md in mds.items():
                     try:
@@ -453,6 +476,7 @@ def history_case(case_seed, res, prop="C09"):
                     full = {"op": "history", "case_seed": case_seed, "ops": ops + [op], "fmt": fmt}
                     if not agreed:
                         res.fail("disagree", full, {"op": "load_verify_sig", "impl": i, "model": m})
+                    truth = truth_by_fmt[fmt]
                     if prop == "C09" and (i == "ok") != truth:
                         res.fail("oracle", full, {
                             "why": "signature check %s although the key dictionary (id %s) %s the current content" % (
@@ -478,7 +502,7 @@ def shard_history(seed, idx, n, prop):
 
 def run(tier, seed):
     nc, nr = (150, 12) if tier == "quick" else (2500, 250)
-    nh = 6 if tier == "quick" else 100
+    nh = 30 if tier == "quick" else 400
     shards = [(shard_canon, (seed, i, nc)) for i in range(16)] + [(shard_roundtrip, (seed, i, nr, tier)) for i in range(16)] + \
         [(shard_history, (seed, i, nh, "C09")) for i in range(16)]
     return core.parallel(core.call, shards)
